@@ -78,6 +78,8 @@ class CFG(object):
     def _can_raise(self, node):
         if not self.may_raise:
             return False
+        if callable(self.may_raise):
+            return bool(self.may_raise(node))
         for n in ast.walk(node):
             if isinstance(n, (ast.Call, ast.Subscript, ast.Attribute, ast.BinOp, ast.Await,
                               ast.Yield, ast.YieldFrom, ast.Compare)):
@@ -156,7 +158,7 @@ class CFG(object):
         if isinstance(st, (ast.For, ast.AsyncFor)):
             h = self._new("for", st)
             self._connect(ins, h.id)
-            if self._can_raise(st.iter) or self.may_raise:
+            if self._can_raise(st.iter) or self.may_raise is True:
                 self._exc_edge(h.id)
             brk = []
             self._loops.append((brk, h.id, len(self._finals)))
@@ -171,7 +173,7 @@ class CFG(object):
         if isinstance(st, (ast.With, ast.AsyncWith)):
             w = self._new("with", st)
             self._connect(ins, w.id)
-            if self.may_raise:
+            if self.may_raise is True or (callable(self.may_raise) and any(self.may_raise(i.context_expr) for i in st.items)):
                 self._exc_edge(w.id)
             return self._block(st.body, [(w.id, None)])
         if isinstance(st, ast.Try) or (hasattr(ast, "TryStar") and isinstance(st, ast.TryStar)):
